@@ -17,6 +17,10 @@ def main(c):
     r = vlib.tlc(SD, "IpcSync", "IpcSyncNoPrep.cfg", workers=2, timeout=600)
     if "NoHang" not in r.violated:
         raise vlib.ToolFailure("the protocol without the preparatory close was not found to hang: the model cannot see what it is for\n" + r.out[-2000:])
+    c.add_mc("IpcSync liveness (a read that can return does return): a waiter left alone is always released", vlib.tlc(SD, "IpcSync", "IpcSyncLive.cfg", workers=4, timeout=600))
+    r2 = vlib.tlc(SD, "IpcSync", "IpcSyncLiveNoPrep.cfg", workers=2, timeout=600)
+    if r2.rc != 13:
+        raise vlib.ToolFailure("liveness of the protocol without the preparatory close was not refuted\n" + r2.out[-2000:])
     c.cov["model_mutation_detected"] = "PREP = FALSE violates NoHang (a waiter holding its own write end never sees end-of-file)"
     c.cov["exhaustive"] = True
     apalache(c)
